@@ -91,6 +91,21 @@ CLAIMED.update({
         technique="Lean 4 loop-invariant proofs over Q (+ order-generic monotonicity) + differential correspondence"),
 })
 
+CLAIMED.update({
+    "C16": dict(
+        text=("Proof: parsing an element specification never panics and is sound (succeeds only for a table symbol "
+              "optionally followed by one bracketed u16 numeral of an isotope the element has) for every string and "
+              "every table; string reads return 0 for anything that denotes no present entry and agree with access by "
+              "the parsed specification.  The round trip, the agreement with an independent specification of the "
+              "text format and the side conditions of the read theorems are kernel-evaluated over every (element, "
+              "isotope | none) pair of the regenerated table.  Correspondence: all 444 rendered keys, all strings up "
+              "to length 4 (quick) / 5-6 (thorough) over a 13-character alphabet, mutations and random strings, "
+              "through parse / FromStr / the helper and as read keys on all four composition forms."),
+        design_ref="§7.16",
+        note=NOTE_COMMON + " Non-ASCII character classes are parameters of the model; the driver's table for the characters the generators use is checked against Rust's on every run.",
+        technique="Lean 4 parametric proofs + decide +kernel over the whole table + exhaustive short-string correspondence"),
+})
+
 PENDING_REASON = "check not built yet in this session; no claim is made until its model, theorems and correspondence run exist"
 
 
